@@ -191,9 +191,11 @@ fn run(name: &str, j: &J) -> Result<bool, String> {
         }
         "c18_map_offset" => {
             let table: Relation = Relation::table().name("t").schema(Schema::builder().with(("a", DataType::integer_interval(0, 10))).build()).size(100).build();
-            let off = j["offset"].as_u64().unwrap() as usize;
-            let m: Relation = Relation::map().name("m").with(("a", Expr::col("a"))).offset(off).input(table).build();
-            println!("  OFFSET {}: size {}", off, m.size());
+            let mut b = Relation::map().name("m").with(("a", Expr::col("a")));
+            if let Some(off) = j["offset"].as_u64() { b = b.offset(off as usize); }
+            if let Some(lim) = j["limit"].as_u64() { b = b.limit(lim as usize); }
+            let m: Relation = b.input(table).build();
+            println!("  OFFSET {:?} LIMIT {:?}: size {}", j["offset"].as_u64(), j["limit"].as_u64(), m.size());
             Ok(true)
         }
         // C06: the propagated range of a / b must contain the quotient of every point of the argument ranges
